@@ -155,6 +155,7 @@ func (pdb *pgDb) Put(ctx context.Context, key []byte, val []byte) error {
 
 	_, err = pdb.tx.Exec(ctx, query, actualKey, val)
 	if err != nil {
+		pdb.Abort(ctx)
 		return err
 	}
 
